@@ -12,7 +12,7 @@ from harness import ms_common as M
 
 PROPERTY = "C02"
 BOUNDS = {
-    "quick": "configurations 1..3, slices 1..3, every exit-plane subset (incl. entrance plane), 1-2 detectors; incident wave, every slice and the "
+    "quick": "configurations 1..3 (ensemble axis of type FrozenPhononsAxis, NonLinearAxis or OrdinalAxis), slices 1..3, every exit-plane subset (incl. entrance plane), 1-2 detectors; incident wave, every slice and the "
              "multislice step / detectors are uninterpreted, so a pass holds for all waves, potentials and propagators; FrozenPhonons partition: configs <= 4, every chunking, symbolic seeds",
     "thorough": "configurations 1..4, slices 1..5, FrozenPhonons partition configs <= 6",
 }
@@ -32,13 +32,13 @@ def _subsets(n):
             yield tuple(sub) + (n - 1,)
 
 
-def _ms(ncfg, nsl, ndet):
+def _ms(ncfg, nsl, ndet, axis="phonons"):
     def fn(c):
         for planes in _subsets(nsl):
-            pot = M.make_potential(ncfg, nsl, planes)
+            pot = M.make_potential(ncfg, nsl, planes, axis=axis)
             dets = [M.TagDetector(k) for k in range(ndet)]
             out = MS.multislice_and_detect(M.make_waves(), pot, dets)
-            rp = R_MS(ncfg, nsl, planes)
+            rp = R_MS(ncfg, nsl, planes, axis)
             ok = [len(out) == ndet]
             for d, m in enumerate(out):
                 a = m.array
@@ -55,14 +55,15 @@ def _ms(ncfg, nsl, ndet):
     return fn
 
 
-def R_MS(ncfg, nsl, planes):
+def R_MS(ncfg, nsl, planes, axis="phonons"):
     return make("""
     import abtem
-    from abtem.core.axes import FrozenPhononsAxis
+    from abtem.core.axes import FrozenPhononsAxis, NonLinearAxis, OrdinalAxis
     from abtem.potentials.iam import PotentialArray
     rng = np.random.default_rng(0)
     arr = (rng.random((NCFG, NSL, 8, 8)) * 30).astype(np.float32)
-    pot = PotentialArray(arr, slice_thickness=1.0, sampling=0.2, exit_planes=PLANES, ensemble_axes_metadata=[FrozenPhononsAxis()])
+    ax = FrozenPhononsAxis() if AXIS == 'phonons' else NonLinearAxis(label='T', values=tuple(float(i) for i in range(NCFG))) if AXIS == 'nonlinear' else OrdinalAxis(label='cfg', values=tuple(range(NCFG)))
+    pot = PotentialArray(arr, slice_thickness=1.0, sampling=0.2, exit_planes=PLANES, ensemble_axes_metadata=[ax])
     w = abtem.PlaneWave(energy=80e3)
     full = w.multislice(pot, lazy=False).array
     full = full.reshape((NCFG, len(PLANES)) + full.shape[-2:])
@@ -71,7 +72,7 @@ def R_MS(ncfg, nsl, planes):
         ref = w.multislice(single, lazy=False).array.reshape((len(PLANES),) + full.shape[-2:])
         err = np.abs(full[k] - ref).max()
         if err > 1e-5: bad, why = True, f"configuration {k}: ensemble result differs from the independent single-configuration run by {err}"
-""", NCFG=ncfg, NSL=nsl, PLANES=planes)
+""", NCFG=ncfg, NSL=nsl, PLANES=planes, AXIS=axis)
 
 
 # ---- configurations are determined by seeds alone, whatever the chunking ------------------------------------
@@ -145,6 +146,9 @@ def cases(tier):
                 if ndet == 2 and (ncfg, nsl) not in ((2, 2), (3, 3)):
                     continue
                 out.append(Case(f"multislice.cfg{ncfg}.sl{nsl}.det{ndet}", _ms(ncfg, nsl, ndet), setup=M.setup))
+    for axis in ("nonlinear", "ordinal"):
+        for ncfg, nsl in ((2, 2), (3, 2)):
+            out.append(Case(f"multislice.{axis}_axis.cfg{ncfg}.sl{nsl}", _ms(ncfg, nsl, 1, axis), setup=M.setup))
     for n in (1, 2, 3, 4) if q else (1, 2, 3, 4, 5, 6):
         out.append(Case(f"seeds.n{n}", _seeds(n)))
     return out
